@@ -1316,6 +1316,7 @@ func TestVerifH2(t *testing.T) {
 		vt.Flush()
 		h2BindPipelined(t, vt)
 		vt.Flush()
+		h2SlowPermissionHandler(t, vt)
 	}
 	for i := 0; i < nHist; i++ {
 		if only >= 0 && int64(i) != only {
